@@ -314,7 +314,7 @@ def r5_arity(ctx, sop, sc):
 
 
 # --------------------------------------------------------------------------- R4 provenance
-def r4_provenance(ctx):
+def r4_provenance(ctx, rule='R4'):
     add = ctx.prog.func(f'{N.DOCUMENT}.MultistageTree.add_node')
     sites = []
     for name in ('run', '_compute_spine_operator_token', '_compute_metacomment_token', '_compute_header_token'):
@@ -323,24 +323,24 @@ def r4_provenance(ctx):
         for n in walk_local(f.node):
             if isinstance(n, ast.Call) and _is_add_node(n):
                 sites.append((f, n, env))
-    ctx.expect_count('R4', 'add_node call sites on the import path', len(sites), 5)
+    ctx.expect_count(rule, 'add_node call sites on the import path', len(sites), 5)
     for f, call, env in sites:
         at = f'{f.module.relpath}:{call.lineno}'
         b = F.bind_args(call, add, True)
         pnames = add.params[1:]
         stage, parent, token, lso, sig = (b.get(p) for p in pnames[:5])
         hdr = b.get(pnames[5]) if len(pnames) > 5 else None
-        ctx.check(src(stage) == 'self._tree_stage', 'R4', at, f.qualname, 'node-stage', 'stage = the row counter',
+        ctx.check(src(stage) == 'self._tree_stage', rule, at, f.qualname, 'node-stage', 'stage = the row counter',
                   f'stage argument is `{src(stage)}`')
         psrc = src(parent)
         # resolve a local parent variable to its origin
         porig = G.norm(parent, {k: v for k, v in env.items()}) if isinstance(parent, ast.Name) else psrc
         if f.name == '_compute_header_token':
-            ctx.check(porig == 'self._last_node_previous_to_header', 'R4', at, f.qualname, 'header-parent',
+            ctx.check(porig == 'self._last_node_previous_to_header', rule, at, f.qualname, 'header-parent',
                       'a header cell hangs from the pre-header chain', f'header parent is `{porig}`')
             continue
         if f.name == '_compute_metacomment_token' and porig == 'self._last_node_previous_to_header':
-            ctx.holds('R4', at, f.qualname, 'a pre-header global comment extends the pre-header chain')
+            ctx.holds(rule, at, f.qualname, 'a pre-header global comment extends the pre-header chain')
             continue
         loopvar_parent = False
         if isinstance(parent, ast.Name):
@@ -362,31 +362,31 @@ def r4_provenance(ctx):
         else:
             origins.add(psrc)
         okp = loopvar_parent or (colvar is not None and origins == {f'{PARENTS}[{colvar}]'})
-        ctx.check(okp, 'R4', at, f.qualname, 'node-parent',
+        ctx.check(okp, rule, at, f.qualname, 'node-parent',
                   'parent = the node of the previous row on the same spine path (parents[this column])',
                   f'parent is `{sorted(origins) or psrc}`, expected `{PARENTS}[{colvar}]`')
         pn = parent.id if isinstance(parent, ast.Name) else psrc
-        ctx.check(src(hdr) == f'{pn}.header_node', 'R4', at, f.qualname, 'node-header',
+        ctx.check(src(hdr) == f'{pn}.header_node', rule, at, f.qualname, 'node-header',
                   'the node carries its parent\'s header node (spine identity propagates down the path)',
                   f'header_node argument is `{src(hdr)}`')
-        ctx.check(src(sig) == f'{pn}.last_signature_nodes', 'R4', at, f.qualname, 'node-signatures',
+        ctx.check(src(sig) == f'{pn}.last_signature_nodes', rule, at, f.qualname, 'node-signatures',
                   'the node inherits its parent\'s signature context', f'signature argument is `{src(sig)}`')
-        ctx.check(src(lso) == f'self.get_last_spine_operator({pn})', 'R4', at, f.qualname, 'node-last-spine-operator',
+        ctx.check(src(lso) == f'self.get_last_spine_operator({pn})', rule, at, f.qualname, 'node-last-spine-operator',
                   'the node inherits its parent\'s last spine operator', f'last_spine_operator argument is `{src(lso)}`')
     # header token: spine id = column index, header node is its own header
     hdr = ctx.prog.func(f'{IMP}._compute_header_token')
     ci, cc = hdr.params[1:3]
     ht = ctx.prog.cls(f'{N.TOKENS}.HeaderToken')
     hts = [n for n in walk_local(hdr.node) if isinstance(n, ast.Call) and F.constructed_class(ctx, n, hdr) is ht]
-    ctx.expect_count('R4', 'HeaderToken construction', len(hts), 1)
+    ctx.expect_count(rule, 'HeaderToken construction', len(hts), 1)
     for n in hts:
         b = F.bind_args(n, ctx.prog.find_method(ht, '__init__'), True)
-        ctx.check(F.is_name(b.get('encoding'), cc) and F.is_name(b.get('spine_id'), ci), 'R4', f'{hdr.module.relpath}:{n.lineno}',
+        ctx.check(F.is_name(b.get('encoding'), cc) and F.is_name(b.get('spine_id'), ci), rule, f'{hdr.module.relpath}:{n.lineno}',
                   hdr.qualname, 'header-spine-id', 'HeaderToken(cell text, spine_id = 0-based column index)',
                   f'HeaderToken arguments: encoding=`{src(b.get("encoding"))}`, spine_id=`{src(b.get("spine_id"))}`')
     own = any(isinstance(n, ast.Assign) and len(n.targets) == 1 and isinstance(n.targets[0], ast.Attribute)
               and n.targets[0].attr == 'header_node' and src(n.targets[0].value) == src(n.value) for n in walk_local(hdr.node))
-    ctx.check(own, 'R4', hdr.loc, hdr.qualname, 'header-is-own-header', 'a header node is its own header node')
+    ctx.check(own, rule, hdr.loc, hdr.qualname, 'header-is-own-header', 'a header node is its own header node')
     run_ = ctx.prog.func(f'{IMP}.run')
     for n in walk_local(run_.node):
         if isinstance(n, ast.Call) and isinstance(n.func, ast.Attribute) and n.func.attr in (
@@ -396,7 +396,7 @@ def r4_provenance(ctx):
             t = ctx.prog.func(f'{IMP}.{n.func.attr}')
             b = F.bind_args(n, t, True)
             ok = F.is_name(b.get(t.params[1]), iv) and F.is_name(b.get(t.params[2]), cv)
-            ctx.check(ok, 'R4', f'{run_.module.relpath}:{n.lineno}', run_.qualname, f'helper-args:{n.func.attr}',
+            ctx.check(ok, rule, f'{run_.module.relpath}:{n.lineno}', run_.qualname, f'helper-args:{n.func.attr}',
                       f'{n.func.attr} receives (column index, cell text) of the current cell',
                       f'{n.func.attr} receives `{src(n)[:80]}`')
     # parents of the next row become the parents of this row
@@ -404,7 +404,7 @@ def r4_provenance(ctx):
                    for n in walk_local(run_.node))
     ok_reset = any(isinstance(n, ast.Assign) and src(n.targets[0]) == 'self._next_stage_parents' and src(n.value) == '[]'
                    for n in walk_local(run_.node))
-    ctx.check(ok_shift and ok_reset, 'R4', run_.loc, run_.qualname, 'parents-shift',
+    ctx.check(ok_shift and ok_reset, rule, run_.loc, run_.qualname, 'parents-shift',
               'per row: parents := continuations of the previous row; continuations := []')
 
 
